@@ -350,6 +350,61 @@ Definition write_file_known (hs : Z) (v14 : bool) (stale : locator) (kl : list k
 
 Definition opt_list {A} (o : option (list A)) : list A := match o with Some l => l | None => [] end.
 
+(* ------------------------------------------------------------------------------------ *)
+(* every way of reading: a source that can seek (laspy.read, laspy.open with EVLRs read at opening or deferred to
+   read() / read_evlrs(), before or after the points were consumed, LasHeader.read_from, mmap) goes to
+   start_of_first_evlr: read_file. A source that can only be read forward (no seek) stands, when the EVLRs are
+   wanted, at pos = behind the last point it delivered; the records are found by consuming the bytes up to
+   start_of_first_evlr (they need not follow the points directly: waveform packets, padding, ...); it cannot go
+   back. [this is the behaviour after the smallest repair of LasReader.read(), which at the time of writing assumes
+   pos = start_of_first_evlr on this route: reported by the check as nonseekable-evlr-gap] *)
+Definition read_file_from (hs : Z) (v14 : bool) (loc : locator) (pos : Z) (body : list Z)
+    : result (list kvlr * option (list kvlr)) :=
+  do r <- read_known false (Z.to_nat (l_nvlr loc)) body;
+  if v14 then
+    if 0 <? l_nevlr loc then
+      if l_estart loc <? pos then Err ELaspy
+      else
+        let rest := skipn (Z.to_nat (pos - hs)) body in
+        do e <- read_known true (Z.to_nat (l_nevlr loc)) (skipn (Z.to_nat (l_estart loc - pos)) rest);
+        Ok (fst r, Some (fst e))
+    else Ok (fst r, Some [])
+  else Ok (fst r, None).
+
+(* ------------------------------------------------------------------------------------ *)
+(* LasAppender: open (header and VLRs read, the EVLRs read from start_of_first_evlr into the public list .evlrs),
+   append_points any number of times (newpts = all the bytes appended, possibly none), close. kel = the list .evlrs
+   holds at close (None: the file had none and none was given). The points go where the old ones end (npts = bytes
+   of point data the header announces), over whatever is there; a non-empty list is written behind them, located by
+   the header, and the file ends there; an emptied list: none announced, the file ends behind the points. The header
+   and the VLRs are written again in place: the VLRs as the records that were read serialise, which must take the
+   room they had [after the smallest repair this is refused before anything is written; at the time of writing it is
+   refused at close, after the points and EVLRs were written under the old header: reported as append-resized-vlr]. *)
+Definition overwrite (body : list Z) (pos : nat) (bs : list Z) : list Z :=
+  firstn pos body ++ bs ++ skipn (pos + length bs) body.
+
+Definition append_file (hs : Z) (v14 : bool) (loc : locator) (body : list Z) (npts : Z) (newpts : list Z)
+    (kel : option (list kvlr)) : result (locator * list Z) :=
+  do r <- read_known false (Z.to_nat (l_nvlr loc)) body;
+  do vl <- kv_records (fst r);
+  do vb <- enc_vlrs false vl;
+  if negb (hs + len vb =? l_offset loc) then Err ELaspy
+  else
+    let p := Z.to_nat (l_offset loc + npts - hs) in
+    let b1 := overwrite body p newpts in
+    let q := (p + length newpts)%nat in
+    let h := mkLoc (len vl) (l_offset loc) (l_nevlr loc) (l_estart loc) in
+    do r2 <- match (if v14 then kel else None) with
+             | Some (k :: kl) =>
+                 do el <- kv_records (k :: kl);
+                 do eb <- enc_vlrs true el;
+                 Ok (mkLoc (l_nvlr h) (l_offset h) (len el) (hs + Z.of_nat q), firstn q b1 ++ eb)
+             | _ => if v14 && (0 <? l_nevlr loc) then Ok (mkLoc (l_nvlr h) (l_offset h) 0 0, firstn q b1)
+                    else Ok (h, b1)
+             end;
+    Ok (if v14 then fst r2 else mkLoc (l_nvlr (fst r2)) (l_offset (fst r2)) 0 0,
+        vb ++ skipn (length vb) (snd r2)).
+
 (* the statements of LasWriter.__init__ / write_evlrs this model describes (compared with the source on every run) *)
 Definition modelled_writer_header_ops : list string :=
   ["self.header = deepcopy(header)";
@@ -363,4 +418,4 @@ Definition modelled_write_evlrs_ops : list string :=
    "self.done = True";
    "self.header.number_of_evlrs = len(evlrs)";
    "self.header.start_of_first_evlr = self.dest.tell()";
-   "evlrs.write_to(self.dest, as_extended=True)"]%string.
+   "evlrs.write_to(self.dest, as_extended=True, encoding_errors=self.encoding_errors)"]%string.
